@@ -102,6 +102,24 @@ func authGate(s *an.PathState, user *an.Term) *an.Term {
 
 func nonEmpty(s *an.PathState, t *an.Term) bool { return nonEmptyKey(s, t.K) }
 
+// nonEmptyWhere: like nonEmptyKey for the string term selected by pred.
+func nonEmptyWhere(s *an.PathState, pred func(*an.Term) bool) bool {
+	for _, a := range s.Atoms {
+		if a.B == nil {
+			continue
+		}
+		if a.Op == "!=" && a.B.IsConst(`""`) && pred(a.A.StripConv()) {
+			return true
+		}
+		if a.A.IsCallTo("builtin len") && a.A.Op == "call" && pred(a.A.Args[0].StripConv()) {
+			if (a.Op == "!=" && a.B.IsConst("0")) || (a.Op == ">" && a.B.IsConst("0")) || (a.Op == ">=" && a.B.IsConst("1")) {
+				return true
+			}
+		}
+	}
+	return false
+}
+
 // nonEmptyKey: the path establishes x != "" (or len(x) != 0, len(x) > 0, len(x) >= 1) for the string with key k.
 func nonEmptyKey(s *an.PathState, k string) bool {
 	for _, a := range s.Atoms {
